@@ -90,6 +90,7 @@ func C03() int {
 		pf = []Flags{{}, {N: true, B: true, I: true, W: true, R: sp("[x]")}}
 	}
 	RunCorpus(s, prod, pf, 1000, judge)
+	reportBatchAnomalies(c)
 	c.Set("flag_sets", flagNames(fsets))
 	c.Set("race_reports", s.RaceReports())
 	if c.Counter("trees_aligned") < 10000 {
